@@ -4,6 +4,7 @@
 // Copyright (C) 2017-2022 Stillwater Supercomputing, Inc.
 //
 // This file is part of the universal numbers project, which is released under an MIT Open Source license.
+#include <cmath>
 #include <string>
 #include <sstream>
 #include <iostream>
@@ -1084,7 +1085,25 @@ public:
 	template<typename Real>
 	constexpr integer& convert_ieee(Real rhs) noexcept {
 		clear();
-		return *this = static_cast<long long>(rhs); // TODO: this clamps the IEEE range to +-2^63
+		if (rhs > Real(-9223372036854775808.0) && rhs < Real(9223372036854775808.0)) {
+			return *this = static_cast<long long>(rhs); // fits a long long: truncates toward zero
+		}
+		if (!(rhs == rhs) || rhs - rhs != Real(0)) return *this; // nan and infinities have no integer value
+		// |rhs| >= 2^63 is an integer already: place its significand (at most 64 bits) at its scale,
+		// wrapping modulo 2^nbits like every other out-of-range assignment
+		bool negative = (rhs < 0);
+		int scale = 0;
+		Real fraction = std::frexp(negative ? -rhs : rhs, &scale);               // |rhs| = fraction * 2^scale, 0.5 <= fraction < 1
+		std::uint64_t significand = static_cast<std::uint64_t>(std::ldexp(fraction, 64)); // exact: fraction has at most 64 bits
+		int shift = scale - 64;                                                   // |rhs| = significand * 2^shift, shift >= 0
+		for (unsigned i = 0; i < 64; ++i) {
+			if ((significand >> i) & 0x1ull) {
+				unsigned position = i + static_cast<unsigned>(shift);
+				if (position < nbits) setbit(position);
+			}
+		}
+		if (negative) twosComplement();
+		return *this;
 	}
 
 	// show the binary encodings of the limbs
